@@ -13,6 +13,8 @@
 //!       rgrant <scope> <cons>                      (actions are fixed: every read-side permission)
 //!       dgrant <actions csv> <scope> <cons>        (a delegable Grant of the delegator `lead`)
 //!       rdeleg <actions csv> <scope> <cons>        (a Delegation lead → reader; the reader may hold nothing else)
+//!       mdeleg <actions csv> <scope> <cons>        (a re-delegable Delegation lead → mid; every `rdeleg` then is mid → reader with it as parent;
+//!                                                   `f=@mask` = the case's field mask, `f=@only` = the masked member alone)
 //!       mask <none|attributes|name>                (which member the Grants' field mask hides)
 //!       q <command text; <<id:NAME>> = that element's id in the store at hand, <<seq:K>> / <<seqmid:K>> = the Space
 //!          sequence after step K / between creating and classifying the element of step K>
@@ -30,6 +32,7 @@ use vh_common::{ModelProc, Rng};
 
 pub const READER: &str = "kip:principal:reader";
 pub const LEAD: &str = "kip:principal:lead";
+pub const MID: &str = "kip:principal:mid";
 const READ_ACTIONS: [&str; 6] = ["read", "search", "discover", "read_history", "project", "export"];
 
 pub async fn exec(session: &Session, text: &str, params: Option<Value>) -> Response {
@@ -191,6 +194,7 @@ pub async fn run(ops: &[String], model: &mut Option<ModelProc>) -> Result<CaseOu
     let mut grants: Vec<(String, String)> = vec![]; // raw (scope, cons) tokens
     let mut dgrants: Vec<(String, String, String)> = vec![]; // (actions, scope, cons) of the delegator
     let mut rdelegs: Vec<(String, String, String)> = vec![]; // (actions, scope, cons) of Delegations lead → reader
+    let mut mdeleg: Option<(String, String, String)> = None; // the middle link lead → mid of a chain
     let mut mask = "none".to_string();
     let mut queries: Vec<(Option<usize>, String)> = vec![];
     for op in ops {
@@ -202,6 +206,7 @@ pub async fn run(ops: &[String], model: &mut Option<ModelProc>) -> Result<CaseOu
             ["rgrant", sc, cs] => grants.push((sc.to_string(), cs.to_string())),
             ["dgrant", acts, sc, cs] => dgrants.push((acts.to_string(), sc.to_string(), cs.to_string())),
             ["rdeleg", acts, sc, cs] => rdelegs.push((acts.to_string(), sc.to_string(), cs.to_string())),
+            ["mdeleg", acts, sc, cs] => mdeleg = Some((acts.to_string(), sc.to_string(), cs.to_string())),
             ["mask", m] => mask = m.to_string(),
             ["q", ..] => queries.push((None, op[2..].to_string())),
             ["page", lim, ..] => { let l: usize = lim.parse().map_err(|_| "bad page")?; queries.push((Some(l), op[5 + lim.len() + 1..].to_string())); }
@@ -260,7 +265,9 @@ pub async fn run(ops: &[String], model: &mut Option<ModelProc>) -> Result<CaseOu
         scope.schema_refs = scope.schema_refs.iter().map(|t| person_ref(t.trim_start_matches('@'))).collect();
         scope.elements = scope.elements.iter().map(|n| s.ids.get(n).cloned().or_else(|| n.strip_prefix("prop").and_then(|k| k.parse::<usize>().ok()).and_then(|k| s.prop_ids.get(k).cloned().flatten())).unwrap_or_else(|| n.clone())).collect();
         let mut cons = parse_cons(cs).ok_or("bad cons")?;
-        if masked { cons.fields = fields.clone(); }
+        if cons.fields == ["@mask"] { cons.fields = fields.clone(); }
+        else if cons.fields == ["@only"] { cons.fields = if mask == "none" { vec![] } else { vec![mask.clone()] }; }
+        else if masked { cons.fields = fields.clone(); }
         Ok((scope, cons))
     };
     let rg = |scope: &anda_cognitive_nexus::governance::rows::AuthorityScope, cons: &anda_cognitive_nexus::governance::rows::AuthorityConstraints, actions: Vec<String>| RGrant {
@@ -288,14 +295,32 @@ pub async fn run(ops: &[String], model: &mut Option<ModelProc>) -> Result<CaseOu
         gov.create_grant(GrantDraft { space_id: DEFAULT_SPACE.into(), grantee_principal: LEAD.into(), actions: csv(acts), scope, constraints: cons, delegation_allowed: true, ..Default::default() }, SYSTEM_PRINCIPAL)
             .await.map_err(|e| format!("{e:?}"))?;
     }
+    // the middle link of a chain: lead → mid, re-delegable; it holds `read` only if ONE Grant of lead lists it and contains its bounds
+    let mut mid_link: Option<(RGrant, u64)> = None;
+    if let Some((acts, sc, cs)) = &mdeleg {
+        gov.ensure_principal(PrincipalDraft { principal_id: MID.into(), principal_class: "agent".into(), display_name: "m".into(), auth_provider: "vh".into(), auth_subject: "m".into() }).await.map_err(|e| format!("{e:?}"))?;
+        model_lines.push(format!("principal {MID}"));
+        let (scope, cons) = resolve(sc, cs, false)?;
+        let md = rg(&scope, &cons, csv(acts));
+        model_lines.push(format!("deleg {DEFAULT_SPACE} {LEAD} {MID} {acts} {} p=-;pa=-;as=-;from=0;until=0 {} - 1", scope_tok(&scope), show_cons(&cons)));
+        let row = gov.create_delegation(DelegationDraft { space_id: DEFAULT_SPACE.into(), delegator_principal: LEAD.into(), delegate_principal: MID.into(), actions: csv(acts), scope, constraints: cons, may_redelegate: true, ..Default::default() }, LEAD)
+            .await.map_err(|e| format!("{e:?}"))?;
+        mid_link = Some((md, row._id));
+    }
     for (acts, sc, cs) in &rdelegs {
-        let (scope, cons) = resolve(sc, cs, true)?;
+        let (scope, cons) = resolve(sc, cs, mid_link.is_none())?;
         let d = rg(&scope, &cons, csv(acts));
-        let confers_read = d.actions.iter().any(|a| a == "read") && held.iter().any(|g| g.actions.iter().any(|a| a == "read") && contains(g, &d));
-        out.hits.push(format!("nonint:delegation-{}", if confers_read { "confers-read" } else { "confers-no-read" }));
+        let has_read = |g: &RGrant| g.actions.iter().any(|a| a == "read");
+        let confers_read = match &mid_link {
+            None => has_read(&d) && held.iter().any(|g| has_read(g) && contains(g, &d)),
+            // a chain: the middle link must itself be conferred, and must contain the child's bounds on every dimension
+            Some((md, _)) => has_read(&d) && has_read(md) && held.iter().any(|g| has_read(g) && contains(g, md)) && contains(md, &d),
+        };
+        out.hits.push(format!("nonint:{}-{}", if mid_link.is_some() { "chain" } else { "delegation" }, if confers_read { "confers-read" } else { "confers-no-read" }));
         if confers_read { rgrants.push(d); }
-        model_lines.push(format!("deleg {DEFAULT_SPACE} {LEAD} {READER} {acts} {} p=-;pa=-;as=-;from=0;until=0 {} - 0", scope_tok(&scope), show_cons(&cons)));
-        gov.create_delegation(DelegationDraft { space_id: DEFAULT_SPACE.into(), delegator_principal: LEAD.into(), delegate_principal: READER.into(), actions: csv(acts), scope, constraints: cons, ..Default::default() }, LEAD)
+        let (dor, parent) = match &mid_link { None => (LEAD, String::new()), Some((_, id)) => (MID, format!("kip:delegation:{id}")) };
+        model_lines.push(format!("deleg {DEFAULT_SPACE} {dor} {READER} {acts} {} p=-;pa=-;as=-;from=0;until=0 {} {} 0", scope_tok(&scope), show_cons(&cons), show_str(&parent)));
+        gov.create_delegation(DelegationDraft { space_id: DEFAULT_SPACE.into(), delegator_principal: dor.into(), delegate_principal: READER.into(), actions: csv(acts), scope, constraints: cons, parent_delegation: parent, ..Default::default() }, dor)
             .await.map_err(|e| format!("{e:?}"))?;
     }
     let reader_auth = AuthContext::principal(READER);
@@ -332,15 +357,34 @@ pub async fn run(ops: &[String], model: &mut Option<ModelProc>) -> Result<CaseOu
     }
     // delegate ⊆ delegator on the population: whatever the reader may read through Delegations alone, the delegator may read
     if grants.is_empty() && !rdelegs.is_empty() {
-        let lead_auth = AuthContext::principal(LEAD);
-        let lead_ea = s_nexus.session(lead_auth.clone()).effective_authority(DEFAULT_SPACE).await.map_err(|e| format!("{e:?}"))?;
+        // monotone attenuation on real decisions: readable(reader) ⊆ readable(mid) ⊆ readable(lead), and the members a link's
+        // holder sees are among those the Principal above it sees
+        let mut line: Vec<(&str, AuthContext)> = vec![(READER, reader_auth.clone())];
+        if mid_link.is_some() { line.push((MID, AuthContext::principal(MID))); }
+        line.push((LEAD, AuthContext::principal(LEAD)));
+        let mut eas = vec![];
+        for (p, a) in &line { eas.push(s_nexus.session(a.clone()).effective_authority(DEFAULT_SPACE).await.map_err(|e| format!("{p}: {e:?}"))?); }
         let mut pi = 0usize;
-        for it in &order {
+        'pop: for it in &order {
             let id = match it { Item::Elem(i) => s.ids[&elems[*i].name].clone(), Item::Prop(_) => { let id = s.prop_ids[pi].clone().unwrap(); pi += 1; id } };
             let el = s_nexus.store.get_element(id.parse().map_err(|_| "id")?).await.map_err(|e| format!("{e:?}"))?;
-            if ea.may_read(&el, &reader_auth).is_some() && lead_ea.may_read(&el, &lead_auth).is_none() {
-                out.failures.push(("nonint:delegate-reads-what-its-delegator-cannot".into(), format!("the reader, whose only authority are Delegations of `lead`, may read {id}; `lead` may not"), ops.to_vec(), "delegate's readable set ⊆ delegator's".into(), format!("{id} readable by the delegate only")));
-                break;
+            for w in 0..line.len() - 1 {
+                let (below, above) = (eas[w].may_read(&el, &line[w].1), eas[w + 1].may_read(&el, &line[w + 1].1));
+                match (below, above) {
+                    (Some(_), None) => {
+                        out.failures.push(("nonint:delegate-reads-what-its-delegator-cannot".into(), format!("{} — whose only authority comes down the chain — may read {id}; {} above it may not", line[w].0, line[w + 1].0), ops.to_vec(), "readable(delegate) ⊆ readable(every Principal up the chain)".into(), format!("{id} readable by {} but not by {}", line[w].0, line[w + 1].0)));
+                        break 'pop;
+                    }
+                    (Some(b), Some(a)) if line[w + 1].0 != LEAD || dgrants.len() == 1 => {
+                        let mask_ok = a.fields.is_empty() || (!b.fields.is_empty() && b.fields.iter().all(|x| a.fields.contains(x)));
+                        let ceil_ok = a.max_classification.is_empty() || (!b.max_classification.is_empty() && class_rank(&b.max_classification) <= class_rank(&a.max_classification));
+                        if !(mask_ok && ceil_ok) {
+                            out.failures.push(("nonint:delegate-sees-members-its-delegator-cannot".into(), format!("{} reads {id} under a wider field mask / ceiling than {} above it, whose only authority is its own link", line[w].0, line[w + 1].0), ops.to_vec(), format!("inside fields={:?} mc={:?}", a.fields, a.max_classification), format!("fields={:?} mc={:?}", b.fields, b.max_classification)));
+                            break 'pop;
+                        }
+                    }
+                    _ => {}
+                }
             }
         }
     }
@@ -526,7 +570,39 @@ pub fn gen_case(r: &mut Rng) -> Vec<String> {
             ops.push(format!("rdeleg {} {} f=-;mr=-;mi=-;mc={};x=1", READ_ACTIONS.join(","), b.0, b.1));
         }
     }
-    let ng = if delegate_mode { 0 } else { 1 + r.usize(2) };
+    let chain_mode = !delegate_mode && r.chance(1, 3);
+    let mut mask_override: Option<&str> = None;
+    if chain_mode {
+        // a chain lead → mid → reader bounded on ONE dimension; the child's list is, relative to the middle link's, equal / a
+        // subset / a superset / overlapping / DISJOINT / empty, or bounded under an unbounded parent. Data lies on both sides.
+        ops.push(format!("dgrant {} k=-;t=-;c=-;e=- f=-;mr=-;mi=-;mc=-;x=1", READ_ACTIONS.join(",")));
+        let names: Vec<String> = (0..3).map(|_| format!("n{:02}", r.usize(n))).collect();
+        let (dim, uni): (&str, [String; 3]) = match r.below(6) {
+            0 | 1 => ("c", ["public".into(), "internal".into(), "secret".into()]),
+            2 => ("c", ["public".into(), "secret".into(), "private".into()]),
+            3 => ("e", [names[0].clone(), names[1].clone(), names[2].clone()]),
+            4 => ("t", ["@Person".into(), "@Preference".into(), "@Insight".into()]),
+            _ if mask != "none" => ("f", ["@mask".into(), "@only".into(), "@only".into()]),
+            _ => ("c", ["internal".into(), "public".into(), "secret".into()]),
+        };
+        if dim != "f" { mask_override = Some("none"); }
+        let (a, b, c) = (uni[0].clone(), uni[1].clone(), uni[2].clone());
+        let (pv, cv) = if dim == "f" {
+            match r.below(4) { 0 => (a.clone(), a.clone()), 1 | 2 => (a.clone(), b.clone()), _ => (a.clone(), "-".to_string()) }
+        } else {
+            match r.below(9) {
+                0 => (format!("{a},{b}"), format!("{a},{b}")), 1 => (format!("{a},{b}"), a.clone()), 2 => (a.clone(), format!("{a},{b}")), 3 => (format!("{a},{b}"), format!("{b},{c}")),
+                4 | 5 => (a.clone(), b.clone()), 6 => (format!("{a},{b}"), c.clone()), 7 => (a.clone(), "-".to_string()), _ => ("-".to_string(), a.clone()),
+            }
+        };
+        let tok = |v: &str| -> String {
+            if dim == "f" { format!("k=-;t=-;c=-;e=- f={v};mr=-;mi=-;mc=-;x=1") }
+            else { format!("k=-;t={};c={};e={} f=-;mr=-;mi=-;mc=-;x=1", if dim == "t" { v } else { "-" }, if dim == "c" { v } else { "-" }, if dim == "e" { v } else { "-" }) }
+        };
+        ops.push(format!("mdeleg {} {}", READ_ACTIONS.join(","), tok(&pv)));
+        ops.push(format!("rdeleg {} {}", READ_ACTIONS.join(","), tok(&cv)));
+    }
+    let ng = if delegate_mode || chain_mode { 0 } else { 1 + r.usize(2) };
     for _ in 0..ng {
         let ceiling = *r.pick(&["-", "public", "internal", "internal", "private"]);
         let scope = match r.below(8) {
@@ -538,6 +614,7 @@ pub fn gen_case(r: &mut Rng) -> Vec<String> {
         };
         ops.push(format!("rgrant {scope} f=-;mr=-;mi=-;mc={ceiling};x=1"));
     }
+    let mask = mask_override.unwrap_or(mask);
     ops.push(format!("mask {mask}"));
     // the battery
     let k = r.range(0, 9);
